@@ -6,5 +6,5 @@ CONSTANTS
   MaxEmpty = 1
   EofModes <- BoolBoth
   SSCarry = TRUE
-INVARIANTS ChunkingInvariant PrefixOK TypeOK
+INVARIANTS ChunkingInvariant PrefixOK SplitInvariant TypeOK
 CHECK_DEADLOCK FALSE
